@@ -210,15 +210,37 @@ def _units(ctx) -> None:
         if p.holds("isinstance(other, int)") is True:
             ex = p.exit()
             k = {a: nun(v) for a, v in core.kw(ex[2].value).items()} if isinstance(ex[2].value, ast.Call) else {}
-            ctx.ob("SCALE.int", "Duration.__mul__/int", k == {"years": "self._years * other", "months": "self._months * other", "seconds": "self._total * other"},
-                   f"int scaling builds {k}; years, months and the remainder must all be multiplied", m.loc(ex[2]))
+            exact = {"years": "self._years * other", "months": "self._months * other", "microseconds": "self._to_microseconds() * other"}
+            lossy = dict(exact, seconds="self._total * other")
+            lossy.pop("microseconds")
+            ctx.ob("SCALE.int", "Duration.__mul__/int", k == exact,
+                   f"int scaling builds {k}; years, months and the remainder must all be multiplied"
+                   + ("; the remainder goes through float seconds (self._total), which is not exact to the microsecond beyond ~285 years"
+                      if k == lossy else "; expected the exact integer microseconds self._to_microseconds() * other"), m.loc(ex[2]))
     for name, meth in (("__add__", "+"), ("__sub__", "-")):
         fn = m.func(f"Duration.{name}")
         for p in cfg.paths(fn):
             if p.holds("isinstance(other, timedelta)") is True:
                 ex = p.exit()
-                ok = nun(ex[2].value) == f"self.__class__(seconds=self.total_seconds() {meth} other.total_seconds())"
-                ctx.ob("ADDSUB", f"Duration.{name}", ok, f"returns `{nun(ex[2].value)}`", m.loc(ex[2]))
+                got = nun(ex[2].value)
+                ok = got == f"self.__class__(microseconds=_native_microseconds(self) {meth} _native_microseconds(other))"
+                why = f"returns `{got}`; must combine the exact lengths of both operands in microseconds"
+                if got == f"self.__class__(seconds=self.total_seconds() {meth} other.total_seconds())":
+                    why += " - total_seconds() is a float, exact to the microsecond only up to ~285 years (the native operation is exact)"
+                ctx.ob("ADDSUB", f"Duration.{name}", ok, why, m.loc(ex[2]))
+    # the helper the operators rely on: exact microseconds of the *native* slots (years and months included)
+    try:
+        hf = m.func("_native_microseconds")
+        r = core.returns(hf)
+        from ..rules import units as U
+        p0 = core.params(hf, drop_self=False)[0]
+        w = U.weights(r[0].value, m) if len(r) == 1 else None
+        want_w = {f"timedelta.days.__get__({p0})": 86400 * 10**6, f"timedelta.seconds.__get__({p0})": 10**6, f"timedelta.microseconds.__get__({p0})": 1}
+        ctx.ob("UNITS.native", "_native_microseconds", w == want_w, f"weights {w}; must be days*86400e6 + seconds*1e6 + microseconds of the native slots", m.loc(hf))
+    except core.AnchorMissing:
+        ctx.unverified("UNITS.native", "_native_microseconds", "helper not found", m.rel)
+    except core.Unsupported as e:
+        ctx.unverified("UNITS.native", "_native_microseconds", str(e), m.rel)
 
 
 def _reference(ctx) -> None:
@@ -295,7 +317,7 @@ def run(ctx) -> None:
     from . import C04
     ctx.step(C04._neg_and_signature, ctx)
     ctx.expect_min("DUNDER", 20)
-    ctx.expect_min("ATTR-UNDER-GUARD", 8)
+    ctx.expect_min("ATTR-UNDER-GUARD", 6)
     ctx.expect_min("RATIO", 3)
     ctx.expect_min("CTOR-LSP", 8)
     ctx.assumptions += ["dir(datetime.timedelta) of the running interpreter lists what a native operand offers",
